@@ -13,7 +13,7 @@ from pv.core import Sub, Violation, call_fuel, check, short
 from pv.codec import build, Env, D0, token, vtoken
 
 ASSUMPTIONS = [
-    'key cells: None, ints {0,1,2}, floats {0.0,1.0,2.5}, NaN objects (two identities), strings {"","a","1"}, two datetimes - no bools (cmp ranks True apart from 1 while == does not)',
+    'key cells: None, ints {0,1,2}, floats {0.0,1.0,2.5}, NaN objects (two identities), strings {"","a","1"}, two datetimes; a quarter of the cases draw every key from numbers only (small ints / floats / NaN, or ints around +-2**53 next to 2.0**53 and 0.5) - no bools (cmp ranks True apart from 1 while == does not)',
     "x.xor(y, mode='r') (documented as 'what is in y but not in x') is checked as the mirrored anti-join whenever the generated mode is r/right/1",
     'xor is claimed with >= 1 key column: with no key column it returns x unchanged, which tests/test_dictable.py::test_dictable_xor_no_rhs pins as intended',
     'computed keys (callables) read columns whose names do not collide with the key-column name given by the other side',
@@ -27,6 +27,9 @@ _key = st.one_of(st.none(), st.sampled_from([1, 2, 0]), st.sampled_from([1.0, 2.
                  st.sampled_from(['a', '1', '']), st.sampled_from([['dt', D0, 0], ['dt', D0 + 1, 0]]))
 _key_big = st.one_of(st.sampled_from([2 ** 53, 2 ** 53 + 1, 2.0 ** 53, 1]), st.none())      # ints that floats cannot tell apart
 _key_inf = st.one_of(st.sampled_from([['inf', 1], ['inf', -1], ['nan', 0], ['nan', 1], 1.0]), st.none())      # infinities are ordinary float keys, distinct from NaN
+# columns of numbers only (what a vectorised sort / grouping would take): small ints and floats with NaN, and numbers that float64 cannot tell apart
+_key_num = st.one_of(st.sampled_from([0, 1, 2, -1]), st.sampled_from([1.0, 2.5, 0.5]), st.integers(0, 1).map(lambda k: ['nan', k]))
+_key_bignum = st.sampled_from([2 ** 53, 2 ** 53 + 1, 2 ** 53 + 2, 2.0 ** 53, 0.5, 1, -(2 ** 53) - 1])
 _key_narrow = st.one_of(st.sampled_from([1, 1.0, 2]), st.integers(0, 1).map(lambda k: ['nan', k]), st.none())
 _val = st.one_of(st.none(), st.integers(0, 3), st.sampled_from([0.5, 1.0]), st.sampled_from(['u', 'v']), st.just(['nan', 2]))
 
@@ -59,7 +62,7 @@ def _case(draw, max_rows=7):
         nl, nr = draw(st.integers(1, 2)), draw(st.integers(9, 30))
     elif profile == 'long_left':
         nl, nr = draw(st.integers(9, 30)), draw(st.integers(1, 2))
-    keyst = draw(st.sampled_from([_key, _key, _key_narrow, _key_narrow, _key_big, _key_inf]))
+    keyst = draw(st.sampled_from([_key, _key, _key_narrow, _key_narrow, _key_big, _key_inf, _key_num, _key_bignum]))
     lnames = ['k%i' % (i + 1) for i in range(nk)]
     if kind in ('diffnames',):
         rnames = ['q%i' % (i + 1) for i in range(nk)]
@@ -327,6 +330,12 @@ def run_join(spec):
         cls.append('equal_not_identical_keys')
     if nan_two_ids:
         cls.append('nan_keys_of_two_identities_match')
+    allk = [v for ks in rawkeys(L, lkey) + rawkeys(R, rkey) for v in ks]
+    if nk and allk and all(isinstance(v, (int, float)) and not isinstance(v, bool) for v in allk) and len(L) >= 2 and len(R) >= 1:
+        cls.append('numeric_only_keys')
+        big = [v for v in allk if v == v and abs(v) >= 2 ** 53]
+        if any(isinstance(v, float) for v in allk) and len(set(v for v in big if isinstance(v, int))) >= 2:
+            cls.append('numeric_only_keys:ints_beyond_2**53_next_to_a_float')
     if shared:
         cls.append('same_named_nonkey')
     if nmatch == 0:
@@ -340,6 +349,6 @@ SUBS = [
              'int/float twins, None; key spellings None/name/list/different names/callable left/callable right/[] (cross); modes None,l,r,0,1,callable; '
              'x.join(y), x*y, x.xor(y), x/y. Oracle: nested-loop reference compared as multisets, anti-join + partition law, operands unchanged (cell identity), '
              'fuel-bounded termination. non-trivial = many-to-many key or keys equal but not identical (int vs float, two NaN objects)',
-        floor=0.2, class_floors={'nan_keys_of_two_identities_match': 0.03, 'many_to_many': 0.1, 'op=xor': 0.1, 'lopsided_sizes': 0.08, 'side_of_64+_rows': 0.02, 'second_call_after_reassignment': 0.15}),
+        floor=0.2, class_floors={'numeric_only_keys': 0.08, 'numeric_only_keys:ints_beyond_2**53_next_to_a_float': 0.02, 'nan_keys_of_two_identities_match': 0.03, 'many_to_many': 0.1, 'op=xor': 0.1, 'lopsided_sizes': 0.08, 'side_of_64+_rows': 0.02, 'second_call_after_reassignment': 0.15}),
 ]
 SUBS[0].qshards = 8
